@@ -24,6 +24,8 @@ func init() {
 		rules.AdminRuleIterationSiblings(p, r, "C02-sib")
 		rules.LoopCarriedDefaults(p, r, "C02-loop")
 		rules.SliceShrinkByIdentity(p, r, "C02-shrink")
+		rules.AllowAllResetsMap(p, r, "C02-canon")
+		rules.QueryPathWrites(p, r, "C02-pure")
 		r.Assume("ANPRulesResult is an iota enumeration whose zero value is NotCaptured (re-checked: the rule looks for `verdict == 0`-valued constants)")
 	})
 }
